@@ -86,7 +86,7 @@ macro_rules! adapter {
                     #[serde(with = $module)]
                     x: $t,
                 }
-                for padlen in [0usize, 250 + (after as usize % 8), 251usize.saturating_sub(N), 252usize.saturating_sub(N) + (before as usize % 3)] {
+                for padlen in [0usize, (before as usize) % 16, 250 + (after as usize % 8), 251usize.saturating_sub(N), 252usize.saturating_sub(N) + (before as usize % 3)] {
                     let p = Padded { pad: vec![0x5A; padlen], x };
                     let mut plain = crate::refcodec::ref_encode(&Shape::U64, &Value::U(padlen as u128)).unwrap().bytes;
                     plain.extend(std::iter::repeat(0x5A).take(padlen));
@@ -95,6 +95,33 @@ macro_rules! adapter {
                     let enc = no_panic(|| postcard::to_allocvec_cobs(&p)).map_err(|p| fail("fixint", format!("to_allocvec_cobs panicked: {}", p), cj()))?;
                     if enc.as_ref() != Ok(&frame) {
                         return Err(fail("fixint", format!("{}: COBS-framed encoding with {} pad bytes = {:?}, expected {}", $label, padlen, enc.map(|b| hex(&b)), hex(&frame)), cj()));
+                    }
+                    if frame.len() <= 512 {
+                        for piece in [usize::MAX, 8, 3] {
+                            let got = no_panic(|| {
+                                let mut acc = postcard::accumulator::CobsAccumulator::<512>::new();
+                                let mut out: Option<Padded> = None;
+                                for chunk in frame.chunks(piece.min(frame.len().max(1))) {
+                                    let mut window = chunk;
+                                    while !window.is_empty() {
+                                        window = match acc.feed::<Padded>(window) {
+                                            postcard::accumulator::FeedResult::Consumed => break,
+                                            postcard::accumulator::FeedResult::OverFull(w) => w,
+                                            postcard::accumulator::FeedResult::DeserError(w) => w,
+                                            postcard::accumulator::FeedResult::Success { data, remaining } => {
+                                                out = Some(data);
+                                                remaining
+                                            }
+                                        };
+                                    }
+                                }
+                                out
+                            })
+                            .map_err(|p| fail("fixint", format!("accumulator panicked: {}", p), cj()))?;
+                            if got.as_ref() != Some(&p) {
+                                return Err(fail("fixint", format!("{}: the COBS frame {} fed to an accumulator in pieces of {} bytes yields {:?}", $label, hex(&frame), piece.min(frame.len()), got.map(|g| g.x)), cj()));
+                            }
+                        }
                     }
                     let mut f2 = frame.clone();
                     let back = no_panic(|| postcard::from_bytes_cobs::<Padded>(&mut f2)).map_err(|p| fail("fixint", format!("from_bytes_cobs panicked: {}", p), cj()))?;
